@@ -229,6 +229,9 @@ impl<'a> GeneratorState<'a> {
                                             pos,
                                             false,
                                         )?;
+                                        if self.compiler_state.variables.get("ROM_SELECT").is_none() {
+                                            return Err(self.compiler_state.syntax_error("ROM_SELECT must be declared to call a function in another bank", pos));
+                                        }
                                         self.asm(
                                             STA,
                                             &ExprType::Absolute("ROM_SELECT".into(), true, 0),
@@ -249,6 +252,9 @@ impl<'a> GeneratorState<'a> {
                                             pos,
                                             false,
                                         )?;
+                                        if self.compiler_state.variables.get("ROM_SELECT").is_none() {
+                                            return Err(self.compiler_state.syntax_error("ROM_SELECT must be declared to call a function in another bank", pos));
+                                        }
                                         self.asm(
                                             STA,
                                             &ExprType::Absolute("ROM_SELECT".into(), true, 0),
